@@ -18,7 +18,8 @@
 (***************************************************************************)
 EXTENDS Integers, Sequences, FiniteSets, TLC
 
-CONSTANTS NONE   \* the pointer value None ("a new estimand": the baseline column carries the estimand's name)
+CONSTANTS NONE,  \* the pointer value None ("a new estimand": the baseline column carries the estimand's name)
+          F17    \* TRUE: the code as found before the repair of finding F17
 
 VARIABLES
   par,    \* [entry, historical, includeRes, ests : Seq([e, ptr])]  the call
@@ -86,7 +87,13 @@ AddWeights(x, pre) ==
 BaselineStep(x, est, historical) ==
   LET p    == IF est.ptr = NONE THEN est.e ELSE est.ptr
       bcol == "baseline_" \o p
-      g    == IF Has(x.cols, bcol) THEN [ok |-> TRUE, cols |-> x.cols, added |-> <<>>] ELSE Generate(est.e, x.cols, "baseline_")
+      \* the column is already there (handed in, or left by an earlier run on the same frame): nothing is generated, but
+      \* the weights of a margin run are the two party votes all the same (repair of finding F17; F17 = TRUE is the code
+      \* as found: the weights stayed at the turnout that AddWeights had just set)
+      found == IF ~F17 /\ est.e = "margin" /\ Has(x.cols, "baseline_dem") /\ Has(x.cols, "baseline_gop")
+               THEN Put(x.cols, "baseline_weights", Plus(x.cols["baseline_dem"], x.cols["baseline_gop"]))
+               ELSE x.cols
+      g    == IF Has(x.cols, bcol) THEN [ok |-> TRUE, cols |-> found, added |-> <<>>] ELSE Generate(est.e, x.cols, "baseline_")
   IN  IF ~g.ok THEN Err(x)
       ELSE IF historical THEN [x EXCEPT !.cols = g.cols]
       ELSE IF ~Has(g.cols, bcol) THEN Err([x EXCEPT !.cols = g.cols])   \* pointer names a column nobody creates
@@ -180,14 +187,16 @@ LastElectionIsBaselinePlusOne ==
             p   == IF est.ptr = NONE THEN est.e ELSE est.ptr
         IN  m.cols["last_election_results_" \o est.e] = Plus(m.cols["baseline_" \o p], IntV(1))
 
-\* the weights are two-party votes exactly when `margin` was GENERATED (requested and its column not handed in),
-\* the turnout otherwise
+\* the weights of a run that asks for the margin are the two-party votes - whether the margin column was generated or
+\* was already in the frame (as long as the party columns are there) -, the turnout otherwise
 BaselineWeightsRule ==
   (Done /\ par.entry = "baselines") =>
-     LET generated == \E k \in DOMAIN par.ests :
-                         /\ par.ests[k].e = "margin"
-                         /\ ~Has(inp, "baseline_" \o (IF par.ests[k].ptr = NONE THEN "margin" ELSE par.ests[k].ptr))
-     IN  m.cols["baseline_weights"] = IF generated THEN Plus(inp["baseline_dem"], inp["baseline_gop"]) ELSE inp["baseline_turnout"]
+     LET twoParty == "margin" \in EstNames /\ Has(inp, "baseline_dem") /\ Has(inp, "baseline_gop")
+     IN  m.cols["baseline_weights"] = IF twoParty THEN Plus(inp["baseline_dem"], inp["baseline_gop"]) ELSE inp["baseline_turnout"]
+\* running the same call again on the frame it returned gives the same frame (what a caller that re-uses its frame sees)
+Idempotent ==
+  (Done /\ par.entry = "baselines" /\ ~par.includeRes) =>
+     LET again == RunAll(par, m.cols, par.ests) IN ~again.err /\ again.cols = m.cols
 
 NormalizedMarginInRange ==
   \A pre \in {"baseline_", "results_"} :
